@@ -71,6 +71,8 @@ def run(W, chk):
     from rules.common import farm_enumeration_bound, farm_expiry_epoch
     farm_enumeration_bound(chk, A, "Withdraw", W)
     farm_expiry_epoch(chk, A, "Withdraw")
+    from rules.common import all_elements_processed
+    all_elements_processed(chk, W, A, r"^Store\(FARMS\)", "Withdraw", "LOOP-all-elements")   # every active farm owner is paid
     lt = PredTrue("total_penalty_fee < amount", lambda pn, pa: rel_sign(pn, pa, is_total, "<", om(AMT)))
     for nm, cut in (("penalty < amount", lt), ("emergency flag", EMERGENCY_FLAG), ("not yet expired", IS_EXPIRED_F)):
         pol = CutPolicy([cut])
